@@ -25,6 +25,9 @@ def run(ctx):
         if r.violated:
             raise vlib.Infra("TLC: %s violated in Cache.tla (%s, repaired design)" % (r.violated, cfg))
         vlib.require_tlc_ok(r, "Cache " + cfg)
+    r = vlib.run_tlc(ctx, "Cache.tla", "Cache_split_mut.cfg", tags=("NOCASE",), timeout=1200, quiet=True)
+    if r.violated != "AccountedEqualsLive":
+        raise vlib.Infra("vacuity guard: Cache_split_mut.cfg (a bucket visit that forgets the deleted mark) should violate AccountedEqualsLive, TLC says %s" % (r.violated or r.error))
     if not quick:
         for cfg, inv in (("Cache_asis_Save.cfg", "AccountedEqualsLive"), ("Cache_asis_Recover.cfg", "AccountedEqualsLive"),
                          ("Cache_rel_asis.cfg", "LiveCachesManaged")):
